@@ -617,4 +617,23 @@ Section Link.
     - exact Cl.
     - exact Cl.
   Qed.
+
+  (* any seq value (e.g. the optimised argument of Start) *)
+  Definition ref_sval (k : nat) (sv : Sem.sval V) (w : W) (m1 N m2 : nat) : option final :=
+    odrive N m1 (rrun zeroV m2 (Tv (Tt (S k)) sv) [] w).
+
+  Theorem link_sval k sv n w c :
+    lkv k sv = true -> run n sv w = Some c ->
+    exists M, forall m1 N m2, M <= m1 -> M <= N -> M <= m2 -> ref_sval k sv w m1 N m2 = Some (final_of c).
+  Proof.
+    intros Hk E.
+    pose proof (proj1 (link n) k sv w c [] Hk E) as Cl.
+    change (Ev (Dr [] (Tv (Tt (S k)) sv) w) (final_of c)).
+    destruct c as [g w'|sv' w'|w'|w' pv|]; cbn [Claim final_of] in *.
+    - destruct Cl as [_ Cl]. apply Cl. exists 1. intros m1 N m2 H1 HN H2. destruct m1; [lia|]. destruct m2; [lia|]. reflexivity.
+    - destruct Cl.
+    - exact Cl.
+    - exact Cl.
+    - exact Cl.
+  Qed.
 End Link.
